@@ -67,7 +67,7 @@ int main(int argc, char **argv) {
             }
             free(p);
         } else if (op == "font") {                      // <font file> <face options>
-            std::string path = repo + "/tests/fonts/" + f[2];
+            std::string path = f[2][0] == '/' ? f[2] : repo + "/tests/fonts/" + f[2];
             unsigned opts = f.size() > 3 ? atoi(f[3].c_str()) : 0;
             gr_face *gf = gr_make_file_face(path.c_str(), opts);
             if (!gf) { printf("%s NOFACE\n", id.c_str()); continue; }
